@@ -1,8 +1,16 @@
 mod collector;
 
+#[cfg(not(aquatic_verif))]
 use std::fs::File;
+#[cfg(aquatic_verif)]
+use aquatic_verif_rt::fs::File;
 use std::io::Write;
+#[cfg(not(aquatic_verif))]
 use std::time::{Duration, Instant};
+#[cfg(aquatic_verif)]
+use std::time::Duration;
+#[cfg(aquatic_verif)]
+use aquatic_verif_rt::time::Instant;
 
 use anyhow::Context;
 use aquatic_common::IndexMap;
@@ -213,6 +221,12 @@ pub fn run_statistics_worker(
         if let Some(time_remaining) =
             Duration::from_secs(config.statistics.interval).checked_sub(start_time.elapsed())
         {
+            #[cfg(aquatic_verif)]
+            {
+                aquatic_verif_rt::thread::sleep(time_remaining);
+
+                continue;
+            }
             ::std::thread::sleep(time_remaining);
         } else {
             ::log::warn!(
